@@ -1,5 +1,6 @@
 (** C10 — Indexed tables keep rows and indexes consistent: theorems. *)
-From Coq Require Import List Bool.
+From Coq Require Import List Bool ZArith.
+From C33 Require Import Lib.OMap.
 From C33 Require Import C10.Model C10.Spec C10.ProofsRefuted C10.Proofs.
 
 Theorem C10_table_refines_map_refuted : ~ C10_table_refines_map_full.
@@ -42,3 +43,19 @@ Theorem C10_every_save_partial :
     errs_agree ops1 /\ saved_agrees ops1.
 Proof. exact every_save_partial. Qed.
 Print Assumptions C10_every_save_partial.
+
+(** a full listing (no start key, no count) by primary key or by an index
+    after the save of a guarded history returns exactly the present rows whose
+    key / indexed field has the prefix (as a set), ErrNotFound iff none *)
+Theorem C10_queries_partial :
+  forall ops q,
+  safe_words ops = true ->
+  (forall p d, get p (snd (s_run nil ops)) = Some d -> p <> nil) ->
+  (match q_idx q with QPrimary => True | QIdx _ => sepfree (q_prefix q) = true end) ->
+  q_start q = nil -> (q_count q <= 0)%Z ->
+  exists rs,
+    list_index (kv (snd (run init (ops ++ OSave :: nil)))) q =
+      ((match rs with nil => ENotFound | _ => EOk end), rs) /\
+    forall p d, In (p, d) rs <-> (get p (snd (s_run nil ops)) = Some d /\ q_match q p d = true).
+Proof. exact queries_partial. Qed.
+Print Assumptions C10_queries_partial.
